@@ -302,9 +302,14 @@ theorem C08_honest_scan_ok (L : Lawful ops) (decP : Bytes → Option P) (H : P) 
   exact ⟨_, C08_sender_roundtrip L decP H hH hl64 hl256 hk8 v S i j r n T hT am y ham hy bb hty _ hcb _ rfl hcase (hdec _)⟩
 
 /-- **… and reports the senders' amounts at every reported position.** Under the hypotheses of `C08_honest_scan_ok`, in the `Ok`
-result every reported output `w` carries an honest witness for its position and matched key (`HonestAt`, whose amount `a` and
-mask `y` are the sender's), and `amount()`, `blinding_factor()`, `commitment()` return exactly `a`, `y`, `enc(y·G + a·H)`. (Which
-positions are reported: `C07_reported_iff`.) -/
+result every reported output `w` comes WITH the honest witness of its position and matched key — the content of `HonestAt` with
+its amount and mask exposed: a subaddress index `(i,j)`, a sender secret `r`, a small-order shift `T`, an amount `am < 2^64` and a
+mask `y < l` such that `w.tx_pubkey` is the sender's published key `enc(txKey r dest(i,j) + T)`, the ecdh entry at `w.index` is the
+SENDER's encoding of `(am, y)` under the shared scalar `k = Hs(enc(8·r·V) ‖ varint(w.index))` (legacy: `legacyEncode k y am`;
+compact: `compactEncode k am` with `y` the derived mask) and the commitment entry is `enc(y·G + am·H)` — and `amount()`,
+`blinding_factor()`, `commitment()` return exactly that `am`, that `y` and `enc(y·G + am·H)`. The link `(am, y)` ↔ the sender's
+ecdh encoding is what distinguishes this from opening soundness (`C08_opening_sound_with`, which needs no honesty and only says
+that the reported pair opens the on-chain commitment). (Which positions are reported: `C07_reported_iff`.) -/
 theorem C08_honest_scan_amounts (L : Lawful ops) (decP : Bytes → Option P) (H : P) (hH : decP Gen.pointH = some H)
     (hdec : ∀ X, decP (ops.enc X) = some X)
     (hl64 : 2 ^ 64 ≤ ops.l) (hl256 : ops.l ≤ 2 ^ 256) (hk8 : ∀ m, 8 ≤ (ops.keccak m).length)
@@ -314,8 +319,18 @@ theorem C08_honest_scan_amounts (L : Lawful ops) (decP : Bytes → Option P) (H 
       (K = Rm ∨ ((addKeys ops p)[n]? = some K ∧ ¬ AddressedVia ops v S a b c d p.outs[n] n Rm)) →
       AddressedVia ops v S a b c d p.outs[n] n K → HonestAt ops H v S bb n K)
     (ws : List Owned) (h : checkOutputsPrefix ops decP p v S a b c d (some bb) = .ok ws) :
-    ∀ w ∈ ws, ∃ am y, am < 2 ^ 64 ∧ y < ops.l ∧
+    ∀ w ∈ ws, ∃ (i j r : Nat) (T : P) (am y : Nat), 8 • T = 0 ∧ am < 2 ^ 64 ∧ y < ops.l ∧
+      w.txKey = ops.enc (Spec.Sender.txKey (specPrims ops) r (Spec.Sender.destAt (specPrims ops) v S i j) + T) ∧
       bb.outPk[w.index]? = some (ops.enc (Spec.Amounts.commitment (specPrims ops) H y am)) ∧
+      (bb.ecdh[w.index]? = some (.std
+          (Spec.Amounts.legacyEncode (specPrims ops) (Spec.Sender.derivationScalar (specPrims ops)
+            (Spec.Sender.derivation (specPrims ops) r (Spec.Sender.destAt (specPrims ops) v S i j).view) w.index) y am).1
+          (Spec.Amounts.legacyEncode (specPrims ops) (Spec.Sender.derivationScalar (specPrims ops)
+            (Spec.Sender.derivation (specPrims ops) r (Spec.Sender.destAt (specPrims ops) v S i j).view) w.index) y am).2) ∨
+        (bb.ecdh[w.index]? = some (.bp (Spec.Amounts.compactEncode (specPrims ops) (Spec.Sender.derivationScalar (specPrims ops)
+            (Spec.Sender.derivation (specPrims ops) r (Spec.Sender.destAt (specPrims ops) v S i j).view) w.index) am)) ∧
+          y = Spec.Amounts.compactMask (specPrims ops) (Spec.Sender.derivationScalar (specPrims ops)
+            (Spec.Sender.derivation (specPrims ops) r (Spec.Sender.destAt (specPrims ops) v S i j).view) w.index))) ∧
       w.amount = some am ∧ w.blindingFactor = some y ∧
       w.commitment = some (ops.enc (Spec.Amounts.commitment (specPrims ops) H y am)) := by
   intro w hw
@@ -329,7 +344,7 @@ theorem C08_honest_scan_amounts (L : Lawful ops) (decP : Bytes → Option P) (H 
   rw [new_v, hKe, C08_sender_roundtrip L decP H hH hl64 hl256 hk8 v S i j r w.index T hT am y ham hy bb hty _ hcb _ rfl hcase
     (hdec _)] at hop
   have hw' : w.opening = some ⟨am, y, ops.enc (Spec.Amounts.commitment (specPrims ops) H y am)⟩ := (Except.ok.inj hop).symm
-  refine ⟨am, y, ham, hy, hcb, ?_, ?_, ?_⟩
+  refine ⟨i, j, r, T, am, y, hT, ham, hy, hKe, hcb, hcase, ?_, ?_, ?_⟩
   · unfold Owned.amount; rw [hw']
   · unfold Owned.blindingFactor; rw [hw']; rfl
   · unfold Owned.commitment; rw [hw']; rfl
@@ -394,11 +409,16 @@ theorem C08_clear_amounts_decoded (decP : Bytes → Option P) (bytes rest : Byte
     · exact Or.inr h3
   exact C08_clear_amounts decP t.pre v S a b c d t.base hb ws h
 
-/-- **A `Gen` input does not make the amounts clear** (the deviation from the informal property text "coinbase outputs report
-the clear amount", recorded as a theorem): a transaction whose only input is `TxIn::Gen` but whose base has a RingCT type ≠ Null —
-the decoder accepts such bytes — is scanned like any RingCT transaction: every reported output carries an OPENING (or the scan
-fails), never the clear amount. The harness scans such transactions (`to_monero` gives every RingCT scenario one `Gen` input). -/
-theorem C08_gen_input_ringct_opened (L : Lawful ops) (decP : Bytes → Option P) (t : Tx) (hgt : Nat) (_hin : t.pre.ins = [.gen hgt])
+/-- **A RingCT type ≠ Null is opened whatever the inputs are** — in particular a `Gen` input does not make the amounts clear (the
+deviation from the informal property text "coinbase outputs report the clear amount", recorded as a theorem). The statement has NO
+hypothesis about `t.pre.ins`: for EVERY input list — `[TxIn::Gen]` included — a transaction whose base has a RingCT type ≠ Null is
+scanned like any RingCT transaction: every reported output carries an OPENING (or the scan fails), never the clear amount. (An
+earlier version carried an unused hypothesis `t.pre.ins = [.gen h]`; it only named the situation and has been removed.) That the
+situation occurs is `C08_gen_input_witness` below (an `Ok` scan of a transaction with `ins = [.gen 1]`, clear amount 0 and a type-1
+base that reports the opened amount); that the decoder accepts such bytes is not proved in this file (C02's sample
+`C02_wf_inhabited_rct` is a type-4 transaction with a coinbase input first); the harness scans such transactions (`to_monero` gives
+every RingCT scenario one `Gen` input). -/
+theorem C08_gen_input_ringct_opened (L : Lawful ops) (decP : Bytes → Option P) (t : Tx)
     (bb : Base) (hb : t.base = some bb) (hty : bb.ty ≠ 0) (v : Nat) (S : P) (a b c d : Nat) (ws : List Owned)
     (h : checkOutputsTx ops decP t v S a b c d = .ok ws) :
     ∀ w ∈ ws, ∃ o, w.opening = some o ∧ w.amount = some o.amount := by
@@ -551,11 +571,24 @@ theorem C08_side_conditions_ed25519 :
 theorem C08_no_panic_commit (y a : Nat) : commit edOps decPermissive y a ≠ none := by
   rw [commit_some edOps decPermissive edH C08_edH.1]; exact fun h => by cases h
 
-/-- `C08_sender_roundtrip` for Ed25519, dalek's decompression and the point `edH` that `Gen.pointH` denotes; the commitment
-hypothesis `hC` is discharged for `cb = enc C` by `C08_permissive_decoder`. No hypothesis about `decP`, `H`, `l` or Keccak is left. -/
-theorem C08_sender_roundtrip_ed25519_permissive :
-    type_of% (C08_sender_roundtrip edOps_lawful decPermissive edH C08_edH.1 l64 l256 k8) :=
-  C08_sender_roundtrip edOps_lawful decPermissive edH C08_edH.1 l64 l256 k8
+/-- `C08_sender_roundtrip` for Ed25519, dalek's decompression and the point `edH` that `Gen.pointH` denotes, with the on-chain
+commitment entry being the sender's `enc(y·G + a·H)`: the decompression hypothesis `hC` of the general theorem is DISCHARGED here
+(`decPermissive_enc`), so no hypothesis about `decP`, `H`, `l` or Keccak is left — only the sender's data. (For commitment bytes
+`cb` that are some other spelling of the same point, use the general theorem with `hC : decPermissive cb = some …`.) -/
+theorem C08_sender_roundtrip_ed25519_permissive
+    (v : Nat) (S : EdPoint) (i j r n : Nat) (T : EdPoint) (hT : 8 • T = 0) (a y : Nat) (ha : a < 2 ^ 64) (hy : y < edOps.l)
+    (b : Base) (hty : b.ty ≠ 0)
+    (hcb : b.outPk[n]? = some (edOps.enc (Spec.Amounts.commitment (specPrims edOps) edH y a)))
+    (k : Nat) (hk : k = Spec.Sender.derivationScalar (specPrims edOps)
+        (Spec.Sender.derivation (specPrims edOps) r (Spec.Sender.destAt (specPrims edOps) v S i j).view) n)
+    (hcase :
+      (b.ecdh[n]? = some (.std (Spec.Amounts.legacyEncode (specPrims edOps) k y a).1 (Spec.Amounts.legacyEncode (specPrims edOps) k y a).2)) ∨
+      (b.ecdh[n]? = some (.bp (Spec.Amounts.compactEncode (specPrims edOps) k a)) ∧ y = Spec.Amounts.compactMask (specPrims edOps) k)) :
+    openStep edOps decPermissive v (some b) n
+        (edOps.enc (Spec.Sender.txKey (specPrims edOps) r (Spec.Sender.destAt (specPrims edOps) v S i j) + T))
+      = .ok (some ⟨a, y, edOps.enc (Spec.Amounts.commitment (specPrims edOps) edH y a)⟩) :=
+  C08_sender_roundtrip edOps_lawful decPermissive edH C08_edH.1 l64 l256 k8 v S i j r n T hT a y ha hy b hty _ hcb k hk hcase
+    (decPermissive_enc _)
 
 /-- `C08_scan_reports_sender_amount` for Ed25519 and dalek's decompression: the only hypotheses left are about the transaction -/
 theorem C08_scan_reports_sender_amount_ed25519_permissive :
@@ -602,11 +635,13 @@ noncomputable def witnessBase (v r a y : Nat) (S : EdPoint) : Base :=
 
 /-- **A joint witness on Ed25519 with the real Keccak: an `Ok` RingCT scan that reports the sender's amount.** For every wallet
 `(v, S)`, sender secret `r`, amount `a < 2^64` and mask `y < l`: the transaction `witnessPrefix` / `witnessBase` (extra = the key `r·G`
-alone, single output = the sender's one-time key for the primary address, base of type 1 with the sender's legacy encoding of
+alone, ONE `Gen` INPUT, single output = the sender's one-time key for the primary address, base of type 1 with the sender's legacy encoding of
 `(a, y)` and the commitment `enc(y·G + a·H)`) scans with ranges `0..1 × 0..1` to `Ok`, and the entry for position 0 reports amount
 `a`, blinding factor `y` and that commitment. All transaction-level hypotheses of `C08_sender_tx_amount` (hence of
 `C08_scan_reports_sender_amount` and `C08_honest_scan_ok`) hold together; in particular for `a = 0, y = 0` (the commitment is the
-identity) and for `y = l − 1`, `a = 2^64 − 1`. -/
+identity) and for `y = l − 1`, `a = 2^64 − 1`. This is the LEGACY / main-key / primary-address / untagged / `T = 0` branch only: the
+compact disjunct of `hcase`, the additional-key disjunct of `hK`, subaddresses and tagged targets have no Lean witness (they are
+exercised by the harness families). -/
 theorem C08_witness_ed25519 (v r a y : Nat) (S : EdPoint) (ha : a < 2 ^ 64) (hy : y < edOps.l) :
     ∃ ws, checkOutputsPrefix edOps decPermissive (witnessPrefix v r S) v S 0 1 0 1 (some (witnessBase v r a y S)) = .ok ws ∧
       ∃ w ∈ ws, w.index = 0 ∧ w.amount = some a ∧ w.blindingFactor = some y ∧
@@ -635,5 +670,25 @@ theorem C08_witness_ed25519 (v r a y : Nat) (S : EdPoint) (ha : a < 2 ^ 64) (hy 
       rw [hadd] at h
       simp [Extra.txAdditionalPubkeys] at h
   exact ⟨0, 0, r, 0, a, y, smul_zero 8, ha, hy, hKe, rfl, Or.inl rfl⟩
+
+/-- **The situation of `C08_gen_input_ringct_opened` occurs**: a transaction whose only input is `TxIn::Gen` (`witnessPrefix`:
+`ins = [.gen 1]`, clear amount 0) with a base of type 1 ≠ Null scans — through `Transaction::check_outputs` — to `Ok`, and the entry
+for its output reports the OPENED amount `a` (any `a < 2^64`, e.g. `a ≠ 0` where the clear amount 0 would have been `None`). -/
+theorem C08_gen_input_witness (v r a y : Nat) (S : EdPoint) (ha : a < 2 ^ 64) (hy : y < edOps.l) :
+    ∃ (t : Tx) (ws : List Owned), t.pre.ins = [.gen 1] ∧ (∃ bb, t.base = some bb ∧ bb.ty ≠ 0) ∧
+      checkOutputsTx edOps decPermissive t v S 0 1 0 1 = .ok ws ∧
+      ∃ w ∈ ws, w.out.amount = 0 ∧ (∃ o, w.opening = some o ∧ o.amount = a) ∧ w.amount = some a := by
+  obtain ⟨ws, hws, w, hw, h0, ham, _, _⟩ := C08_witness_ed25519 v r a y S ha hy
+  let t : Tx := ⟨witnessPrefix v r S, [], some (witnessBase v r a y S), none⟩
+  have hws' : checkOutputsTx edOps decPermissive t v S 0 1 0 1 = .ok ws := hws
+  refine ⟨t, ws, rfl, ⟨_, rfl, Nat.one_ne_zero⟩, hws', w, hw, ?_, ?_, ham⟩
+  · obtain ⟨_, _, _, hall⟩ := C07.C07_sound edOps_lawful decPermissive _ v S 0 1 0 1 _ ws hws
+    obtain ⟨_, hout, _⟩ := hall w hw
+    rw [hout]
+    simp only [h0]
+    rfl
+  · obtain ⟨o, ho, hoa⟩ := C08_gen_input_ringct_opened edOps_lawful decPermissive t _ rfl Nat.one_ne_zero v S 0 1 0 1 ws hws' w hw
+    rw [ham] at hoa
+    exact ⟨o, ho, (Option.some.inj hoa).symm⟩
 end Ed25519
 end C08
